@@ -19,9 +19,9 @@ TECHNIQUE = ("fault enumeration by a man in the middle: EVERY single-bit flip of
              "message) plus Hypothesis-generated structural forgeries (flags, digest variants, re-signing with other keys / "
              "users / engines, plaintext substitution, garbage ciphertext, unauthenticated Reports) delivered to the real "
              "client; oracle: the call raises, or returns exactly what the authentic response carried")
-RULE = ("case = user {MD5, SHA-1} x {authNoPriv, authPriv} x operation {get, multiget, getnext, set, bulkget, walk, bulkwalk} x "
+RULE = ("case = user {MD5, SHA-1} x {authNoPriv, authPriv} x operation {get, multiget, getnext, set, bulkget, walk, bulkwalk, walk in lenient mode (errors=warn)} x "
         "which response of the operation is attacked x mutant {bit i of the authentic response | forgery (msgFlags 0..7, digest "
-        "none / zeros / original / truncated 1..11 / 13 octets / garbage / re-signed with another password, user or engine, user "
+        "none / zeros / original / truncated 1..11 / 13 octets / garbage / re-signed with another password, algorithm, or the key of a second legitimate user the client talked as before, user "
         "name same / other / empty, engine id same / other, payload: attacker bindings in clear / authentic plaintext in clear / "
         "original body / garbage ciphertext / Report with usmStats, arbitrary or no bindings, error-status 0 or 2)}; non-trivial "
         "= the mutant differs from the authentic response and still parses as BER under the independent decoder; distinct = "
@@ -38,8 +38,8 @@ TBL = (1, 3, 6, 1, 4, 1, 66, 2, 1)
 SCALAR = (1, 3, 6, 1, 4, 1, 66, 1, 0)
 EVIL = (vber.T_OCTETS, b"EVIL")
 USERS = [vworld.V3_PROTOS[1], vworld.V3_PROTOS[2], vworld.V3_PROTOS[3], vworld.V3_PROTOS[4]]
-OPS = ["get", "multiget", "getnext", "set", "bulkget", "walk", "bulkwalk"]
-WALKS = ("walk", "bulkwalk")
+OPS = ["get", "multiget", "getnext", "set", "bulkget", "walk", "bulkwalk", "walk_warn"]
+WALKS = ("walk", "bulkwalk", "walk_warn")
 
 
 def make_db(fill=5):
@@ -67,6 +67,9 @@ async def _op(client, op):
         return [vworld.observe_vb(vb) async for vb in client.walk(O(TBL))]
     if op == "bulkwalk":
         return [vworld.observe_vb(vb) async for vb in client.bulkwalk([O(TBL)], bulk_size=2)]
+    if op == "walk_warn":
+        # lenient mode tolerates a faulty AGENT; it is no licence to act on what an attacker sends
+        return [vworld.observe_vb(vb) async for vb in client.walk(O(TBL), errors="warn")]
     raise ValueError(op)
 
 
@@ -87,6 +90,45 @@ def authentic(ui, op, fill):
                 res = "F10B"
         _AUTH[k] = (res, [r["response"] for r in agent.log if not r.get("discovery")])
     return _AUTH[k]
+
+
+MONITOR_PW = b"monitor-password"     # a second, low-privilege user of the same engine whose password the attacker knows
+
+
+def monitor_proto(proto):
+    return {"v": "3", "user": "monitor", "algo": proto["algo"], "auth_pw": MONITOR_PW.hex()}
+
+
+def authentic_isolated(ui, op, fill):
+    """authentic(), computed in a forked child: the reference exchange as the target user must not be the first thing the
+    library's module state of THIS process sees when the case is about what happens after another user was first"""
+    import os
+    import pickle
+
+    k = (ui, op, fill)
+    if k in _AUTH:
+        return _AUTH[k]
+    r, w = os.pipe()
+    pid = os.fork()
+    if pid == 0:
+        try:
+            os.close(r)
+            try:
+                blob = pickle.dumps(("ok", authentic(ui, op, fill)))
+            except BaseException as e:  # noqa
+                blob = pickle.dumps(("exc", "%s: %s" % (type(e).__name__, e)))
+            with os.fdopen(w, "wb") as f:
+                f.write(blob)
+        finally:
+            os._exit(0)
+    os.close(w)
+    with os.fdopen(r, "rb") as f:
+        blob = f.read()
+    os.waitpid(pid, 0)
+    kind, val = pickle.loads(blob)
+    if kind != "ok":
+        raise RuntimeError("reference exchange failed in the child: %s" % val)
+    return val
 
 
 OTHER_PW = b"attacker-password"
@@ -149,6 +191,10 @@ def forge(agent, req, resp, spec):
         full = agent.build_v3(req["msg_id"], flags, name, body, auth_key=key, algo=user.algo, **kw)
         dg = vber.parse_message(full)["digest"]
         return agent.build_v3(req["msg_id"], flags, name, body, digest=dg[:spec.get("n", 0) % 12], **kw)
+    if d == "resign_monitor":
+        # signed with the key of ANOTHER legitimate user of this engine (whom the client may have talked as before)
+        key = vagent.password_to_key_fast(user.algo, MONITOR_PW, engine)
+        return agent.build_v3(req["msg_id"], flags, name, body, auth_key=key, algo=user.algo, **kw)
     if d == "resign_otheralgo":
         algo = "sha1" if user.algo == "md5" else "md5"
         key = vagent.password_to_key_fast(algo, user.auth_pw, engine)
@@ -160,7 +206,7 @@ def run_case(case) -> Result:
     vsandbox.install_guard()
     ui, op, at, fill = case["user"], case["op"], case["at"], case.get("fill", 5)
     proto = USERS[ui]
-    want, responses = authentic(ui, op, fill)
+    want, responses = (authentic_isolated if case.get("prelude") else authentic)(ui, op, fill)
     if want == "F10B":
         return Result("the authentic exchange itself is refused: AuthenticationError on a response with a 127-octet TLV",
                       False, ["base_hits_known_finding"], known="reencoded_len_127")
@@ -192,6 +238,8 @@ def run_case(case) -> Result:
         raise ValueError(how)
 
     def mangle(agent, req, resp):
+        if st8.get("prelude"):
+            return resp
         if req.get("discovery"):
             # multi-step attack: every discovery exchange AFTER the attacked response (e.g. a re-discovery the first
             # forgery provoked) -- or, with at == -1, the very first one -- is answered by the attacker as well
@@ -220,9 +268,29 @@ def run_case(case) -> Result:
         st8["mutant"] = out
         return out
 
-    agent, client = vworld.make_world(proto, make_db(fill), request_cap=40)
-    agent.mangle = mangle
-    classes = [vworld.proto_label(proto), "op=" + op, case["kind"]]
+    if case.get("prelude"):
+        # history: the same process first talks to the engine as the low-privilege user "monitor" (a second client object)
+        mon = monitor_proto(proto)
+        agent, client = vworld.make_world(proto, make_db(fill), request_cap=40,
+                                          users=[vworld.agent_user(proto), vworld.agent_user(mon)])
+        agent.mangle = mangle
+        st8["prelude"] = True
+        try:
+            with vclock.fixed(1_700_000_000):
+                other = vworld.Client("192.0.2.1", vworld.creds(mon), sender=agent)
+                got = vworld.observe(vworld.run(other.get(vworld.OID(SCALAR))))
+        except Exception as e:  # noqa
+            # (not this property's business: C10 judges whether authentic exchanges succeed)
+            return Result(None, False, ["prelude_failed:%s" % type(e).__name__], inconclusive=True)
+        finally:
+            st8["prelude"] = False
+        if got != ("OctetString", b"v" * fill):
+            return Result(None, False, ["prelude_failed:wrong_result"], inconclusive=True)
+        del agent.log[:]
+    else:
+        agent, client = vworld.make_world(proto, make_db(fill), request_cap=40)
+        agent.mangle = mangle
+    classes = [vworld.proto_label(proto), "op=" + op, case["kind"]] + (["after_other_user"] if case.get("prelude") else [])
     if case["kind"] == "forgery":
         classes.append("payload=" + case["spec"]["payload"])
         if case["spec"].get("then_disco"):
@@ -272,7 +340,7 @@ def run_case(case) -> Result:
 
 def bases(tier):
     out = []
-    ops = ["get", "getnext", "walk"] if tier == "quick" else OPS
+    ops = ["get", "getnext", "walk", "walk_warn"] if tier == "quick" else OPS
     for ui in range(len(USERS)):
         for op in ops:
             for at in ((0, 1) if op in WALKS else (0,)):
@@ -302,7 +370,7 @@ class _Flips:
 SPEC = st.fixed_dictionaries(dict(
     flags=st.sampled_from([0, 0, 1, 1, 3, 3, 4, 5, 7, 2, 6]),
     digest=st.sampled_from(["none", "none", "zeros", "orig", "orig", "trunc0", "trunc1", "trunc4", "trunc11", "13", "garbage",
-                            "resign_otherpw", "resign_otherpw", "resign_trunc", "resign_otheralgo"]),
+                            "resign_otherpw", "resign_otherpw", "resign_trunc", "resign_otheralgo", "resign_monitor", "resign_monitor"]),
     user=st.sampled_from(["same", "same", "same", "other", "empty"]),
     engine=st.sampled_from(["same", "same", "same", "other"]),
     payload=st.sampled_from(["evil_plain", "evil_plain", "evil_plain", "plain_authentic", "orig", "garbage_cipher",
@@ -317,13 +385,34 @@ def forgeries(draw):
     case = dict(kind="forgery", user=draw(st.integers(0, len(USERS) - 1)), op=op,
                 at=draw(st.integers(0, 2)) if op in WALKS else 0, fill=draw(st.sampled_from([5, 5, 60, 170])),
                 spec=draw(SPEC))
+    if case["spec"]["digest"] == "resign_monitor" or draw(st.integers(0, 5)) == 0:
+        case["prelude"] = True          # the client (process) talked to the engine as another user before
     if case["spec"]["then_disco"] and draw(st.integers(0, 3)) == 0:
         case["disco_first"] = True      # the attacker already answers the client's first discovery
     return case
 
 
+class _SecondUser:
+    """every case: the process first talks as "monitor", then the target user's operation is answered with a forgery signed
+    with monitor's key (a fresh worker process per unit: nothing else has touched the library's module state before)"""
+
+    def __init__(self, ops):
+        self.ops = ops
+
+    def __iter__(self):
+        for ui in range(len(USERS)):
+            for op in self.ops:
+                for at in ((0, 1) if op in WALKS else (0,)):
+                    for flags in (1, 3, 0):
+                        for payload in ("evil_plain", "report_any"):
+                            yield dict(kind="forgery", user=ui, op=op, at=at, fill=5, prelude=True,
+                                       spec=dict(flags=flags, digest="resign_monitor", user="same", engine="same", payload=payload,
+                                                 then_disco=None, es=0, ei=0, n=0, drop_salt=False))
+
+
 def units(tier, seed):
-    us = []
+    us = [Unit("second-user", enumeration_unit, cases=_SecondUser(["get", "walk"] if tier == "quick" else OPS),
+               label="second-user", exhaustive=False)]
     for b in bases(tier):
         for lo in range(0, 2400, 800):
             us.append(Unit("flips-u%d-%s-%d-f%d-%d" % (b[0], b[1], b[2], b[3], lo), enumeration_unit,
